@@ -3,23 +3,26 @@ C19 — heap model of parsing: values carry object ids.
 
 Hand-written mirror of the code paths that decide *which object* a parse returns:
 
-* `copy_value`                       utype/utils/functional.py:7-29
-* `ParserField.get_default`          utype/parser/field.py:768-796
-* `TypeTransformer.__call__/apply`   utype/utils/transform.py:686-719   (exact-type shortcut)
-* `to_array_types`, `to_dict`, `to_integer`   utype/utils/transform.py:255-330, 412-440
-* `Rule.parse` + `_parse_seq_args/_parse_tuple_args/_parse_map_args`   utype/parser/rule.py:1681-1749, 1891-2034
-* `LogicalType.logical_parse` (`Optional[T]` only)   utype/parser/rule.py:359-420
-* `transform_dataclass`, `init_dataclass`, generated `__init__`, `set_attributes`   utype/parser/cls.py:418-452, 482-500, 553-613
-* `BaseParser.parse_data` (data-first and field-first)   utype/parser/base.py:353-619
-* `FunctionParser.parse_params`      utype/parser/func.py:604-663
-* `Schema.__post_init__/__field_setter__/copy`, DataClass setter   utype/schema.py:265-270, 312-340, 463-469; cls.py:259-273
-* `BaseParser.apply_for` (`__parsers__` cache)   utype/parser/base.py:38-62
-* `TypeRegistry.resolve` cache       utype/utils/base.py:88-107  (after the C16 fix)
+* `copy_value`                       utype/utils/functional.py:7-30
+* `ParserField.get_default`          utype/parser/field.py:803-831
+* `TypeTransformer.__call__/apply`   utype/utils/transform.py:725-748   (exact-type shortcut)
+* `to_array_types`, `to_dict`, `to_integer`   utype/utils/transform.py:258-398, 415-448
+* `Rule.parse` + `_parse_seq_args/_parse_tuple_args/_parse_map_args`   utype/parser/rule.py:1706-1777, 1938-2093
+* `LogicalType.logical_parse` (`Optional[T]` only)   utype/parser/rule.py:371-484
+* `transform_dataclass`, `init_dataclass`, generated `__init__`, `set_attributes`   utype/parser/cls.py:436-467, 499-565, 598-659
+* `BaseParser.parse_data` (data-first and field-first)   utype/parser/base.py:376-705
+* `FunctionParser.parse_params`      utype/parser/func.py:614-683
+* `Schema.__post_init__/__field_getter__/__field_setter__/copy`, DataClass setter/getter   utype/schema.py:280-286, 294-318, 327-369, 513-519; cls.py:275-290, 318-326
+* `BaseParser.apply_for` (`__parsers__` cache)   utype/parser/base.py:42-65
+* `TypeRegistry.resolve` cache       utype/utils/base.py:101-128  (after the C16 fix)
 
 Every Python object that can be mutated in place (list, set, dict, instance, its `__dict__`, and
 opaque mutables such as bytearray/deque) is a `node` with an object id; aliasing = the same id
 occurring twice.  Allocation is a counter; every in-place write the code performs on a container
-is logged with the id of the object written (`St.writes`).  Tied to the code by harness/c19.py
+is a `fill target …` and is logged under the id the *target value* carries (`St.writes`) — the target is whatever the
+value flow hands to the write site, not a stipulated new id.  The process state a parse reads and writes (the
+TypeRegistry cache, the per-parser "forward references resolved" mark, the `__parsers__` cache) is `World.proc` /
+`effectiveOpts`.  Tied to the code by harness/c19.py
 (identical programs run on the real utype; outcomes and identity-labelled object graphs compared).
 -/
 namespace Utv.C19
@@ -31,7 +34,8 @@ inductive UBase where
 
 inductive Kind where
   | list | tuple | set | fset | dict
-  | inst (cls : Nat)        -- instance of data class `cls` (Schema: a dict subclass; DataClass: plain object)
+  | inst (cls : Nat) (isDict : Bool)   -- instance of data class `cls`; `isDict`: a `Schema` (a dict subclass, schema.py),
+                                       -- else a `DataClass` (a plain object)
   | opq (tag : Nat)         -- mutable object `copy_value` does not know: 0 bytearray, 1 deque
   | usr (b : UBase)         -- instance of a user subclass of a builtin container
   deriving DecidableEq, Repr
@@ -53,19 +57,23 @@ def Kind.mutable (k : Kind) : Bool :=
   | .tuple | .fset => false
   | _ => true
 
-/-- `multi(data) or isinstance(data, dict)` — functional.py:7-10, 26-29: the kinds `copy_value` rebuilds.  Both tests
+/-- `multi(data) or isinstance(data, dict)` — functional.py:7-10, 26-30: the kinds `copy_value` rebuilds.  Both tests
 are `isinstance` tests, so instances of user subclasses of list / set / frozenset / tuple / dict are rebuilt too.
 (Data-class instances are outside the generated fragment: the driver answers `unmodelled` for them; so does it for
 namedtuple defaults, whose constructor refuses the single list argument.) -/
 def Kind.copied (k : Kind) : Bool :=
-  match k.base with
-  | .list | .tuple | .set | .fset | .dict => true
-  | _ => false
+  match k with
+  | .inst _ true => true        -- a Schema instance is a dict: `isinstance(data, dict)`
+  | _ =>
+    match k.base with
+    | .list | .tuple | .set | .fset | .dict => true
+    | _ => false
 
 /-- the class of the rebuilt object: `type(data)(...)` keeps a user subclass of list / set / frozenset / tuple,
 `{k: copy_value(v) ...}` turns a dict subclass into a plain dict (functional.py:27, 29) -/
 def Kind.rebuilt : Kind → Kind
   | .usr .dict => .dict
+  | .inst _ true => .dict       -- `{k: copy_value(v) for k, v in data.items()}`: a plain dict of the Schema's items
   | k => k
 
 /-- `multi(data)`: list, tuple, set, frozenset and their subclasses -/
@@ -78,7 +86,7 @@ def Kind.isSeq (k : Kind) : Bool :=
 abbrev Kind.deque : Kind := .opq 1
 abbrev Kind.bytearray : Kind := .opq 0
 
-/-- the classes `to_array_types` is registered for (transform.py:255): list, tuple, set, frozenset, deque -/
+/-- the classes `to_array_types` is registered for (transform.py:258): list, tuple, set, frozenset, deque -/
 def Kind.isSeqTarget : Kind → Bool
   | .list | .tuple | .set | .fset | .opq 1 => true
   | _ => false
@@ -148,6 +156,16 @@ def hashableL : List Val → Bool
   | v :: vs => v.hashable && hashableL vs
 end
 
+mutual
+/-- no data-class instance inside -/
+def Val.noInst : Val → Bool
+  | .node _ k _ items => (match k with | .inst _ _ => false | _ => true) && noInstL items
+  | _ => true
+def noInstL : List Val → Bool
+  | [] => true
+  | v :: vs => v.noInst && noInstL vs
+end
+
 /-! ### allocation state -/
 
 structure St where
@@ -173,10 +191,33 @@ def mk (k : Kind) (keys : List String) (items : List Val) (written : Bool) : Com
   (.ok (.node s.next k keys items),
    { next := s.next + 1, writes := if written then s.next :: s.writes else s.writes })
 
-/-! ### copy_value — functional.py:21-29 -/
+/-- An in-place write (`x.append(..)`, `x[k] = v`, `x.update(..)`, `x.pop(k)`, `dict.__init__(x, ..)`): the object the
+variable `x` holds gets new content.  The write is logged under the identity **the target value carries** — whatever
+object flowed into that variable: a container the code created itself, or its argument. -/
+def fill (target : Val) (keys : List String) (items : List Val) : Comp := fun s =>
+  match target with
+  | .node i k _ _ => (.ok (.node i k keys items), { s with writes := i :: s.writes })
+  | _ => (.error (.unmodelled "in-place write to an atom"), s)
+
+/-- `x = K(); … ; x.<stores>`: create a container, compute what goes into it, store it into `x` in place.
+(`result = []` … `result.append(..)`; `result = {}` … `result[name] = ..`; the call's `**kwargs` … `kwargs.update(_d)`.) -/
+def newThenFill (k : Kind) (body : St → Except Err (List String × List Val) × St) : Comp := fun s =>
+  match mk k [] [] false s with
+  | (.error e, s1) => (.error e, s1)
+  | (.ok x, s1) =>
+    match body s1 with
+    | (.error e, s2) => (.error e, s2)
+    | (.ok (ks, xs), s2) => fill x ks xs s2
+
+/-! ### copy_value — functional.py:21-30 -/
 
 mutual
 def copyValue : Val → St → Val × St
+  | .node _ (.inst _ true) (_ :: keys) (_ :: items), s =>
+      -- a Schema instance is a dict (schema.py `class Schema(dict, …)`): `{k: copy_value(v) for k, v in data.items()}` —
+      -- a new *plain* dict of its items (its `__dict__`, the first child here, is not one of them)
+      match copyList items s with
+      | (items', s1) => (.node s1.next .dict keys items', { s1 with next := s1.next + 1 })
   | .node i k keys items, s =>
       if k.copied then
         -- `type(data)([copy_value(d) for d in data])` / `{k: copy_value(v) for k, v in data.items()}`
@@ -231,6 +272,74 @@ inductive Ty where
       -- `Field(length=.., max_length=.., min_length=..)` on a container type; `(n, true)` = `Lax(n)`
   deriving Repr, Inhabited
 
+/-- the converters of `TypeTransformer.registry` (transform.py `@registry.register(...)`, rule.py, cls.py) -/
+inductive Cid where
+  | any | int | array | dict | bytes | rule | union | data
+  deriving DecidableEq, Repr
+
+/-- what the registry answers for a type from its registrations alone (no cache): `TypeRegistry.resolve`, base.py -/
+def sel : Ty → Cid
+  | .any => .any
+  | .int => .int
+  | .bare .dict => .dict
+  | .bare (.opq 0) => .bytes
+  | .bare _ => .array
+  | .seq .. => .rule
+  | .map _ => .rule
+  | .tup _ => .rule
+  | .con .. => .rule
+  | .opt _ => .union
+  | .data _ => .data
+
+mutual
+/-- the same type object (the registry cache is keyed by the type) -/
+def Ty.same : Ty → Ty → Bool
+  | .any, .any => true
+  | .int, .int => true
+  | .bare k, .bare k' => k == k'
+  | .seq k t, .seq k' t' => k == k' && t.same t'
+  | .map t, .map t' => t.same t'
+  | .tup ts, .tup ts' => sameL ts ts'
+  | .opt t, .opt t' => t.same t'
+  | .data k, .data k' => k == k'
+  | .con t a b c, .con t' a' b' c' => t.same t' && a == a' && b == b' && c == c'
+  | _, _ => false
+def sameL : List Ty → List Ty → Bool
+  | [], [] => true
+  | t :: ts, t' :: ts' => t.same t' && sameL ts ts'
+  | _, _ => false
+end
+
+mutual
+/-- every data class a type mentions has an index below `n` (is declared) -/
+def Ty.scoped (n : Nat) : Ty → Bool
+  | .data k => k < n
+  | .seq _ t => t.scoped n
+  | .map t => t.scoped n
+  | .opt t => t.scoped n
+  | .con t _ _ _ => t.scoped n
+  | .tup ts => scopedL n ts
+  | _ => true
+def scopedL (n : Nat) : List Ty → Bool
+  | [] => true
+  | t :: ts => t.scoped n && scopedL n ts
+end
+
+/-- Process-wide state a parse reads and leaves behind (besides the declarations themselves):
+* `regCache` — `TypeRegistry._cache` (base.py): type ↦ converter, filled by every lookup;
+* `resolved` — the parsers whose pending forward references have been resolved (`BaseParser.resolve_forward_refs`,
+  run lazily at the start of a parser's first successful call; `forward_refs` is emptied). -/
+structure Proc where
+  regCache : List (Ty × Cid) := []
+  resolved : List Nat := []
+  deriving Repr
+
+/-- `TypeRegistry.resolve(t)`: the cached answer if there is one, else the registrations' answer -/
+def Proc.resolve (p : Proc) (t : Ty) : Cid :=
+  match p.regCache.find? (fun e => e.1.same t) with
+  | some e => e.2
+  | Option.none => sel t
+
 inductive Dflt where
   | none                       -- required
   | val (d : Val)              -- `Field(default=d)` / `name: T = d`
@@ -243,7 +352,8 @@ structure Field where
   ty : Ty
   dflt : Dflt
   noOutput : Bool := false
-  ci : Bool := false         -- `setup_case_insensitive` (field.py:554-561): decided once, by the Options of the class that
+  defer : Bool := false        -- `Field(defer_default=True)`: the default is not filled in by the parse
+  ci : Bool := false         -- `setup_case_insensitive` (field.py:555-561): decided once, by the Options of the class that
                              -- *declares* the field; a subclass takes the field over as it is
   deriving Repr
 
@@ -260,17 +370,18 @@ structure Opts where
   strict : Bool := false
   deriving DecidableEq, Repr
 
-/-- the four wrappers `FunctionParser.wrap` chooses from (func.py:521-566): `sync_call`, `get_async_call`
+/-- the four wrappers `FunctionParser.wrap` chooses from (func.py:521-578): `sync_call`, `get_async_call`
 (:927-957), `get_sync_generator` (:791-830), `get_async_generator` (:883-925) -/
 inductive FKind where
   | sync | async | gen | agen
   deriving DecidableEq, Repr
 
 /-- running options given to one parse: `Cls.__from__(data, Options(...))` (they *replace* the class options
-for that parse, options.py:216-222); `mode` and `collect_errors` do not enter the outcome on this fragment -/
+for that parse, options.py:219-258); `mode` and `collect_errors` do not enter the outcome on this fragment -/
 structure ROpts where
-  ignoreRequired : Bool := false       -- also implied by force_default (options.py:173-179)
+  ignoreRequired : Bool := false       -- also implied by force_default (options.py:170-176)
   noDefault : Bool := false
+  deferDefault : Bool := false         -- Options(defer_default=True)
   force : Option Val := none           -- force_default
   dfs : Option Bool := none            -- data_first_search
   deriving Repr
@@ -288,6 +399,10 @@ structure Decl where
 
 abbrev Env := List Decl
 
+/-- all forward references of the declaration are to declared classes -/
+def Decl.scoped (n : Nat) (d : Decl) : Bool :=
+  d.fields.all (fun f => f.ty.scoped n) && (match d.ret with | some (_, t) => t.scoped n | Option.none => true)
+
 def Dflt.vals : Dflt → List Val
   | .val d => [d]
   | .shared d => [d]
@@ -301,7 +416,7 @@ def Env.declIds (E : Env) : List Nat := mutIdsL E.dfltVals
 /-- … and those of them `copy_value` does not rebuild (empty when defaults are list/set/tuple/dict nests) -/
 def Env.leak (E : Env) : List Nat := opqIdsL E.dfltVals
 
-/-- `ParserField.get_default` — field.py:768-796 for the field's own default -/
+/-- `ParserField.get_default` — field.py:803-831 for the field's own default -/
 def getDefault0 : Dflt → St → Option Val × St
   | .none, s => (Option.none, s)                                           -- `return unprovided`
   | .val d, s => match copyValue d s with | (v, s1) => (some v, s1)        -- `copy_value(self.default)`
@@ -310,12 +425,20 @@ def getDefault0 : Dflt → St → Option Val × St
       match sh.build s with
       | (d, s1) => match copyValue d s1 with | (v, s2) => (some v, s2)
 
-/-- … with the running options: `no_default` first, then `force_default`, then the field (field.py:770-796) -/
+/-- … with the running options: `no_default` first, then `force_default`, then the field (field.py:805-831) -/
 def getDefault (ro : ROpts) (d : Dflt) : St → Option Val × St := fun s =>
   if ro.noDefault then (Option.none, s)
   else match ro.force with
     | some a => (match copyValue a s with | (v, s1) => (some v, s1))       -- `copy_value(options.force_default)`
     | Option.none => getDefault0 d s
+
+/-- `get_default(options, defer)` — field.py:808-814, the `defer` test before the default is looked up:
+the parse asks with `defer=False` and gets nothing for a deferred default; attribute access on a Schema instance asks with
+`defer=True` (schema.py:311-318 `__field_getter__`) and gets nothing for a default that is *not* deferred. -/
+def getDefaultAt (defer fdefer : Bool) (ro : ROpts) (d : Dflt) : St → Option Val × St := fun s =>
+  if ro.noDefault then (Option.none, s)
+  else if (!defer && (fdefer || ro.deferDefault)) || (defer && !(fdefer || ro.deferDefault)) then (Option.none, s)
+  else getDefault ro d s
 
 /-! ### converters -/
 
@@ -323,7 +446,7 @@ def junkStrings : List String := ["x", "w", "zz", "q"]
 
 def isDigits (s : String) : Bool := !s.isEmpty && s.toList.all Char.isDigit
 
-/-- `to_integer` on atoms — transform.py:412-440 -/
+/-- `to_integer` on atoms — transform.py:415-448 -/
 def convInt (o : Opts) : Val → Res
   | .int i => .ok (.int i)                                   -- `type(data) == t` → `return data`
   | .str x =>
@@ -346,7 +469,7 @@ def mkSeq (k : Kind) (items : List Val) (written : Bool) : Comp := fun s =>
   else mk k [] items written s
 
 /-- `apply(value, origin, func=to_array_types)` for origin ∈ {list, tuple, set, frozenset}
-(transform.py:255-310, 692-700) and `to_dict` for origin = dict (transform.py:312-330). -/
+(transform.py:258-311, 725-748) and `to_dict` for origin = dict (transform.py:315-398). -/
 def convBare (o : Opts) (k : Kind) (v : Val) : Comp := fun s =>
   if k.isSeqTarget then
     match v with
@@ -386,7 +509,7 @@ def convBare (o : Opts) (k : Kind) (v : Val) : Comp := fun s =>
     | _ => (.error (.unmodelled "bytearray from an atom"), s)
   else (.error (.unmodelled "bare kind"), s)
 
-/-- `value[:n]` — `lax_length` / `lax_max_length` (rule.py:1046-1078): a *new* object for list / tuple / bytearray,
+/-- `value[:n]` — `lax_length` / `lax_max_length` (rule.py:1063-1095): a *new* object for list / tuple / bytearray,
 TypeError (→ ParseError) for what cannot be sliced -/
 def laxCut (n : Nat) : Val → Comp
   | .node _ k _ xs, s => if k.sliceable then mk k.base [] (xs.take n) false s else (.error .perr, s)
@@ -402,7 +525,7 @@ def andThen (c : Comp) (f : Val → Comp) : Comp := fun s =>
   | (.error e, s1) => (.error e, s1)
   | (.ok v, s1) => f v s1
 
-/-- `length` / `lax_length` (rule.py:1038-1058) -/
+/-- `length` / `lax_length` (rule.py:1054-1073) -/
 def consLength (c : Option (Nat × Bool)) (v : Val) : Comp := fun s =>
   match c with
   | Option.none => (.ok v, s)
@@ -411,7 +534,7 @@ def consLength (c : Option (Nat × Bool)) (v : Val) : Comp := fun s =>
       else if lax && lenOf v > n then laxCut n v s    -- `return value[:lg]`
       else (.error .perr, s)
 
-/-- `max_length` / `lax_max_length` (rule.py:1060-1080) -/
+/-- `max_length` / `lax_max_length` (rule.py:1076-1095) -/
 def consMax (c : Option (Nat × Bool)) (v : Val) : Comp := fun s =>
   match c with
   | Option.none => (.ok v, s)
@@ -420,13 +543,13 @@ def consMax (c : Option (Nat × Bool)) (v : Val) : Comp := fun s =>
       else if lax then laxCut n v s                   -- `return value[:m]`
       else (.error .perr, s)
 
-/-- `min_length` (rule.py:1082-1089) -/
+/-- `min_length` (rule.py:1098-1104) -/
 def consMin (c : Option Nat) (v : Val) : Comp := fun s =>
   match c with
   | Option.none => (.ok v, s)
   | some n => if lenOf v < n then (.error .perr, s) else (.ok v, s)
 
-/-- the length validators in the order of `Rule.__constraints__` (rule.py:1141-1143): length, max_length, min_length -/
+/-- the length validators in the order of `Rule.__constraints__` (rule.py:1158-1160): length, max_length, min_length -/
 def applyCons (length maxLength : Option (Nat × Bool)) (minLength : Option Nat) (v : Val) : Comp :=
   andThen (andThen (consLength length v) (consMax maxLength)) (consMin minLength)
 
@@ -460,7 +583,7 @@ def lookupKV (k : String) : List String → List Val → Option Val
 /-- does input key `key` address field `f`?  A field set up case-insensitively has lower-cased aliases and its
 keys are lower-cased before the lookup (base.py `generate_aliases`, `field_first_parse`): any letter case matches.
 A field set up case-sensitively matches its exact name only — in whatever class it is used (`is_case_insensitive`
-returns the recorded setup decision, field.py:761-766). -/
+returns the recorded setup decision, field.py:784-789). -/
 def keyMatches (f : Field) (key : String) : Bool :=
   if f.ci then key.toLower == f.name.toLower else key == f.name
 
@@ -468,7 +591,7 @@ def lookupF (f : Field) : List String → List Val → Option Val
   | a :: as, v :: vs => if keyMatches f a then some v else lookupF f as vs
   | _, _ => Option.none
 
-/-- Field-first search — base.py:520-600: for every field, its input value or its default. -/
+/-- Field-first search — base.py:570-705: for every field, its input value or its default. -/
 def fieldsFF (rec : Ty → Val → Comp) (ro : ROpts) (keys : List String) (items : List Val) :
     List Field → St → Except Err (List (String × Val)) × St
   | [], s => (.ok [], s)
@@ -485,14 +608,14 @@ def fieldsFF (rec : Ty → Val → Comp) (ro : ROpts) (keys : List String) (item
           -- `field.is_required(options)`: declared without default and the run does not say ignore_required
           if f.dflt.isNone && !ro.ignoreRequired then (.error .perr, s)       -- AbsenceError
           else
-          match getDefault ro f.dflt s with
+          match getDefaultAt false f.defer ro f.dflt s with
           | (Option.none, s1) => fieldsFF rec ro keys items fs s1          -- no default: the field stays absent
           | (some d, s1) =>
             match fieldsFF rec ro keys items fs s1 with
             | (.error e, s2) => (.error e, s2)
             | (.ok r, s2) => (.ok ((f.name, d) :: r), s2)
 
-/-- Data-first search, first loop — base.py:424-474: parse the provided items in input order. -/
+/-- Data-first search, first loop — base.py:457-568: parse the provided items in input order. -/
 def dataLoop (rec : Ty → Val → Comp) (fields : List Field) :
     List String → List Val → St → Except Err (List (String × Val)) × St
   | k :: ks, v :: vs, s =>
@@ -514,7 +637,7 @@ def defaultLoop (ro : ROpts) (have_ : List String) : List Field → St → Excep
       if have_.contains f.name then defaultLoop ro have_ fs s
       else if f.dflt.isNone && !ro.ignoreRequired then (.error .perr, s)     -- `field.is_required(options)`: AbsenceError
       else
-        match getDefault ro f.dflt s with
+        match getDefaultAt false f.defer ro f.dflt s with
         | (Option.none, s1) => defaultLoop ro have_ fs s1
         | (some d, s1) =>
           match defaultLoop ro have_ fs s1 with
@@ -536,53 +659,83 @@ def parseData (rec : Ty → Val → Comp) (ro : ROpts) (d : Decl) (keys : List S
 
 inductive Style where
   | kw      -- `Cls(**data)`
-  | pos     -- `Cls(data)`            (cls.py:489-490  `kwargs.update(_d)`)
+  | pos     -- `Cls(data)`            (cls.py:514-518  `kwargs.update(keyword_data(cls, _d, context))`)
   | from_   -- `Cls.__from__(data)`   (init_dataclass)
   deriving DecidableEq, Repr
 
-/-- Build an instance of data class `k` from the name/value pairs the parser returned:
-`cls.__new__` (instance + its `__dict__`), the call's own `kwargs` dict, the parser's result dict,
-`set_attributes` (cls.py:418-452: pops no_output keys from the result, stores every value in
-`__dict__`), `Schema.__post_init__` (`dict.__init__(self, values)`).  All four containers are
-allocated by this call and written in place. -/
-def mkInstance (k : Nat) (d : Decl) (vals : List (String × Val)) : Comp := fun s =>
-  let inst := s.next          -- cls.__new__(cls)
-  let attrs := s.next + 1     -- inst.__dict__
-  let kwargs := s.next + 2    -- **kwargs of __init__
-  let result := s.next + 3    -- the parser's result dict
-  let out := vals.filter (fun p => !(d.fields.any (fun f => f.name == p.1 && f.noOutput)))
-  let attrsNode := Val.node attrs .dict (vals.map (·.1)) (vals.map (·.2))
-  let items := if d.kind == .schema then out else []
-  (.ok (.node inst (.inst k) ("__dict__" :: items.map (·.1)) (attrsNode :: items.map (·.2))),
-   { next := s.next + 4, writes := inst :: attrs :: kwargs :: result :: s.writes })
+/-- the items of a container -/
+def Val.kids : Val → List Val
+  | .node _ _ _ xs => xs
+  | _ => []
 
-/-- what the body of a decorated function receives, as the harness records it (`{'a': a, ..}`, a dict the
-body itself builds); `parse_params` allocates and fills its own `parsed_args` / `parsed_kwargs`. -/
-def mkBinding (vals : List (String × Val)) : Comp := fun s =>
-  (.ok (.node (s.next + 2) .dict (vals.map (·.1)) (vals.map (·.2))),
-   { next := s.next + 3, writes := s.next :: (s.next + 1) :: (s.next + 2) :: s.writes })
+def itemsOf : Val → List String × List Val
+  | .node _ _ ks xs => (ks, xs)
+  | _ => ([], [])
 
-/-- `init_dataclass(cls, data)` / `cls(**data)` for a dict-like `data` with the given entries -/
+/-- `parser(kwargs)`: the parser's result dict — `result = {}` … `result[name] = parsed / default` (base.py parse_data) -/
+def parseInto (rec : Ty → Val → Comp) (ro : ROpts) (d : Decl) (keys : List String) (items : List Val) : Comp :=
+  newThenFill .dict (fun s => match parseData rec ro d keys items s with
+    | (.error e, s1) => (.error e, s1)
+    | (.ok vals, s1) => (.ok (vals.map (·.1), vals.map (·.2)), s1))
+
+/-- `init_dataclass(cls, data)` / `cls(**data)` / `cls(d, **kw)` for the entries the parse sees.  The objects involved,
+each created by this call and then written *through the variable that holds it*:
+* the call's own `**kwargs` dict, filled by the call protocol / `kwargs.update(_d)` (cls.py `__init__`);
+* `inst = cls.__new__(cls)` and its `__dict__`;
+* `values = parser(kwargs)`, the parser's result dict;
+* `set_attributes(values, inst)` (cls.py): `values.pop(key)` for no_output fields, `inst.__dict__[attname] = value`;
+* `Schema.__post_init__`: `dict.__init__(inst, values)`. -/
 def initWith (rec : Ty → Val → Comp) (ro : ROpts) (E : Env) (k : Nat) (keys : List String) (items : List Val) : Comp := fun s =>
   match E[k]? with
   | Option.none => (.error (.unmodelled "no such class"), s)
   | some d =>
     if d.kind == .func then (.error (.unmodelled "function used as a type"), s) else
-    match parseData rec ro d keys items s with
+    match newThenFill .dict (fun s0 => (.ok (keys, items), s0)) s with           -- kwargs
     | (.error e, s1) => (.error e, s1)
-    | (.ok vals, s1) => mkInstance k d vals s1
+    | (.ok kwargs, s1) =>
+    match mk (.inst k (d.kind == .schema)) [] [] false s1 with                    -- inst = cls.__new__(cls)
+    | (.error e, s2) => (.error e, s2)
+    | (.ok inst0, s2) =>
+    match mk .dict [] [] false s2 with                                            -- inst.__dict__
+    | (.error e, s3) => (.error e, s3)
+    | (.ok attrs0, s3) =>
+    match parseInto rec ro d (itemsOf kwargs).1 (itemsOf kwargs).2 s3 with        -- values = parser(kwargs)
+    | (.error e, s4) => (.error e, s4)
+    | (.ok values, s4) =>
+    let vks := (itemsOf values).1
+    let vxs := (itemsOf values).2
+    let outP := (vks.zip vxs).filter (fun p => !(d.fields.any (fun f => f.name == p.1 && f.noOutput)))
+    match fill values (outP.map (·.1)) (outP.map (·.2)) s4 with                   -- values.pop(key)   (no_output)
+    | (.error e, s5) => (.error e, s5)
+    | (.ok values', s5) =>
+    match fill attrs0 vks vxs s5 with                                             -- inst.__dict__[attname] = value
+    | (.error e, s6) => (.error e, s6)
+    | (.ok attrs, s6) =>
+    let shown := if d.kind == .schema then itemsOf values' else ([], [])
+    fill inst0 ("__dict__" :: shown.1) (attrs :: shown.2) s6                       -- dict.__init__(inst, values)
+
+/-- what the body of a decorated function receives, as the harness records it: `{'a': a, ..}`, a dict literal the
+body itself builds from its arguments -/
+def mkBinding (vals : List (String × Val)) : Comp := mk .dict (vals.map (·.1)) (vals.map (·.2)) false
 
 /-- a set with more than one element: its iteration order is not modelled -/
 def unorderedSrc : Val → Bool
   | .node _ k' _ its => k'.isSet && its.length > 1
   | _ => false
 
+/-- `TypeTransformer.__call__` (transform.py): a field value is converted by the converter the registry answers for
+the field's type (`resolver_transformer(t)`); `L` is that lookup.  Inside a `Rule` type the element converters were
+bound when the class was created (`__arg_transformers__`), so `conv` recurses without another lookup.  Should the
+registry answer with a converter other than the type's own, the model does not say what happens. -/
+def guardL (L : Ty → Cid) (f : Ty → Val → Comp) : Ty → Val → Comp := fun ty v s =>
+  if L ty == sel ty then f ty v s else (.error (.unmodelled "the registry answered with another converter"), s)
+
 /-- The type transformer on the modelled fragment.  `fuel` bounds the nesting of data classes and types. -/
-def conv (E : Env) (o : Opts) : Nat → Ty → Val → Comp
+def conv (L : Ty → Cid) (E : Env) (o : Opts) : Nat → Ty → Val → Comp
   | 0, _, _ => fun s => (.error .fuel, s)
   | fuel + 1, ty, v => fun s =>
     match ty with
-    | .any => (.ok v, s)                                              -- rule.py:2049-2053: `return value`
+    | .any => (.ok v, s)                                              -- rule.py:2113-2117: `return value`
     | .int => (convInt o v, s)
     | .bare k => convBare o k v s
     | .seq k t =>
@@ -590,56 +743,62 @@ def conv (E : Env) (o : Opts) : Nat → Ty → Val → Comp
         match convBare o k v s with
         | (.error e, s1) => (.error e, s1)
         | (.ok (.node _ _ _ items), s1) =>
-            let s2 : St := { next := s1.next + 1, writes := s1.next :: s1.writes }     -- `result = []`
-            match mapC (conv E o fuel t) items s2 with
+            -- `result = []` … `result.append(apply(item, ..))` for every item
+            match newThenFill .list (fun s2 => match mapC (conv L E o fuel t) items s2 with
+                | (.error e, s3) => (.error e, s3)
+                | (.ok items', s3) => (.ok ([], items'), s3)) s1 with
             | (.error e, s3) => (.error e, s3)
-            | (.ok items', s3) =>
-              if k == .list then (.ok (.node s1.next .list [] items'), s3)            -- `return result`
-              else mkSeq k items' false s3                                            -- `cls.__origin__(value)`
+            | (.ok r, s3) =>
+              if k == .list then (.ok r, s3)                                          -- `return result`
+              else mkSeq k r.kids false s3   -- `cls.__origin__(value)`
         | (.ok _, s1) => (.error (.unmodelled "origin transform returned an atom"), s1)
     | .map t =>
         match convBare o .dict v s with
         | (.error e, s1) => (.error e, s1)
         | (.ok (.node _ _ keys items), s1) =>
-            let s2 : St := { next := s1.next + 1, writes := s1.next :: s1.writes }     -- `result = {}`
-            match mapC (conv E o fuel t) items s2 with
-            | (.error e, s3) => (.error e, s3)
-            | (.ok items', s3) => (.ok (.node s1.next .dict keys items'), s3)
+            -- `result = {}` … `result[key] = val` for every entry
+            newThenFill .dict (fun s2 => match mapC (conv L E o fuel t) items s2 with
+                | (.error e, s3) => (.error e, s3)
+                | (.ok items', s3) => (.ok (keys, items'), s3)) s1
         | (.ok _, s1) => (.error (.unmodelled "origin transform returned an atom"), s1)
     | .tup ts =>
         if unorderedSrc v then (.error (.unmodelled "tuple from a set (iteration order)"), s) else
         match convBare o .tuple v s with
         | (.error e, s1) => (.error e, s1)
         | (.ok (.node _ _ _ items), s1) =>
-            let s2 : St := { next := s1.next + 1, writes := s1.next :: s1.writes }   -- `result = []`
-            match zipC (conv E o fuel) ts items s2 with
+            -- `result = []` … `result.append(..)` per prefix item, then `cls.__origin__(result)`
+            match newThenFill .list (fun s2 => match zipC (conv L E o fuel) ts items s2 with
+                | (.error e, s3) => (.error e, s3)
+                | (.ok items', s3) => (.ok ([], items'), s3)) s1 with
             | (.error e, s3) => (.error e, s3)
-            | (.ok items', s3) => mk .tuple [] items' false s3                       -- `cls.__origin__(result)`
+            | (.ok r, s3) => mk .tuple [] r.kids false s3
         | (.ok _, s1) => (.error (.unmodelled "origin transform returned an atom"), s1)
     | .con t lg mx mn =>
-        -- Rule.parse (rule.py:1681-1749): transform to the origin (+ args), then the validators on the result
-        match conv E o fuel t v s with
+        -- Rule.parse (rule.py:1706-1777): transform to the origin (+ args), then the validators on the result.
+        -- The argument loops read the converted container once through `_read_items` (rule.py:1833-1841: `list(value)`,
+        -- a temporary the loops iterate over; nothing is written to `value` and the temporary is not part of any result)
+        match conv L E o fuel t v s with
         | (.error e, s1) => (.error e, s1)
         | (.ok r, s1) => applyCons lg mx mn r s1
     | .opt t =>
         match v with
         | .none => (.ok .none, s)                                     -- exact type NoneType
-        | _ => conv E o fuel t v s                                    -- first union stage that accepts
+        | _ => conv L E o fuel t v s                                    -- first union stage that accepts
     | .data k =>
         match v with
-        | .node _ (.inst k') _ _ =>
+        | .node _ (.inst k' _) _ _ =>
             if k' == k then (.ok v, s)                                -- `type(data) == t`: the instance itself
             else (.error (.unmodelled "instance of another class"), s)
-        -- `init_dataclass`: the class parses with its *own* options (`parser.make_context(context=..)`, options.py:216-222)
-        | .node _ .dict keys items => initWith (conv E {} fuel) {} E k keys items s
+        -- `init_dataclass`: the class parses with its *own* options (`parser.make_context(context=..)`, options.py:219-258)
+        | .node _ .dict keys items => initWith (guardL L (conv L E {} fuel)) {} E k keys items s
         | .node _ k' _ items =>
-            if (k' == .list || k' == .tuple) && items.isEmpty then initWith (conv E {} fuel) {} E k [] [] s   -- `to_dict([])`
+            if (k' == .list || k' == .tuple) && items.isEmpty then initWith (guardL L (conv L E {} fuel)) {} E k [] [] s   -- `to_dict([])`
             else (.error (.unmodelled "data class from a sequence/opaque"), s)
         | _ => (.error .perr, s)
 
 def fuelDefault : Nat := 64
 
-/-- `BaseParser.apply_for` — base.py:38-62: the options of the parser that serves wrapper `j` when the
+/-- `BaseParser.apply_for` — base.py:42-65: the options of the parser that serves wrapper `j` when the
 raw function is decorated with `ws[0]`, `ws[1]`, … in this order.  `options=None` re-uses whatever
 parser is cached for the function. -/
 def effectiveOptsAux : Option Opts → List (Option Opts) → Nat → Opts
@@ -660,42 +819,57 @@ def declaredOpts (ws : List (Option Opts)) (j : Nat) : Opts := (ws[j]?.getD Opti
 
 /-- One parse through the public API.  `target` is a class (instance creation) or a decorated function
 (arguments passed positionally or by name); `keys/items` are the entries of the caller's dict. -/
-def callWith (optsOf : List (Option Opts) → Nat → Opts) (ro : ROpts) (E : Env) (target : Nat) (wrapper : Nat)
-    (keys : List String) (items : List Val) : Comp := fun s =>
+def callWith (optsOf : List (Option Opts) → Nat → Opts) (L : Ty → Cid) (resolvedBefore : Bool) (ro : ROpts) (E : Env)
+    (target : Nat) (wrapper : Nat) (keys : List String) (items : List Val) : Comp := fun s =>
   match E[target]? with
   | Option.none => (.error (.unmodelled "no such target"), s)
   | some d =>
+    -- `BaseParser.__call__`: `self.resolve_forward_refs(ignore_errors=False)` — nothing to do when the parser resolved
+    -- its references in an earlier call (`forward_refs` is empty), else every referenced class has to exist now
+    if !resolvedBefore && !d.scoped E.length then (.error (.unmodelled "forward reference to an undeclared class"), s) else
     if d.kind == .func then
       let o := optsOf d.wrappers wrapper
       -- positional arguments are looked up by position, the rest by name; both go through `parse_value`,
       -- missing ones through `get_default`; the order differs, the objects do not
-      -- All four wrappers create their RuntimeContext *inside* the call (func.py:562, 801, 893, 937), resolve the
+      -- All four wrappers create their RuntimeContext *inside* the call (func.py:562, 806, 898, 942), resolve the
       -- parameters through the same `get_params`/`parse_params`, and differ only in when that happens (at the call
       -- when `eager`, else at the first `await` / `next`): `fkind` and `eager` do not enter the outcome.
-      match parseData (conv E o fuelDefault) {} { d with dfs := false } keys items s with
+      -- `parse_params`: `parsed_kwargs = self.parse_data(kwargs, ..)` — a result dict like any other
+      match parseInto (guardL L (conv L E o fuelDefault)) {} { d with dfs := false } keys items s with
       | (.error e, s1) => (.error e, s1)
-      | (.ok vals, s1) =>
+      | (.ok pk, s1) =>
+        let vals := (itemsOf pk).1.zip (itemsOf pk).2
         match d.ret with
         | Option.none => mkBinding vals s1
         | some (fname, ty) =>
-          -- `parse_result` (func.py:703-712): the returned value goes through the transformer with the same context
+          -- `parse_result` (func.py:724-733): the returned value goes through the transformer with the same context
           match lookupKV fname (vals.map (·.1)) (vals.map (·.2)) with
           | Option.none => mkBinding vals s1
           | some v =>
-            match conv E o fuelDefault ty v s1 with
+            match guardL L (conv L E o fuelDefault) ty v s1 with
             | (.error e, s2) => (.error e, s2)
             | (.ok _, s2) => mkBinding vals s2
-    else initWith (conv E {} fuelDefault) ro E target keys items s
+    else initWith (guardL L (conv L E {} fuelDefault)) ro E target keys items s
 
-def call := callWith effectiveOpts {}
+def call := callWith effectiveOpts sel false {}
 
 /-! ### in-place mutation by the caller, `setattr`, `Schema.copy()` -/
 
 inductive Act where
-  | append (v : Val)               -- list.append(atom)
-  | add (v : Val)                  -- set.add(atom)
-  | setkey (k : String) (v : Val)  -- dict[k] = atom
+  | append (v : Val)               -- list.append(v)     (v: an atom or an object the caller holds)
+  | add (v : Val)                  -- set.add(v)
+  | setkey (k : String) (v : Val)  -- dict[k] = v
+  | clear                          -- list/set/dict .clear()
+  | popLast                        -- list.pop()
+  | delkey (k : String)            -- del dict[k]
   deriving Repr
+
+/-- the objects a caller's write puts into the target -/
+def Act.ids : Act → List Nat
+  | .append v => v.mutIds
+  | .add v => v.mutIds
+  | .setkey _ v => v.mutIds
+  | _ => []
 
 def setKV (k : String) (v : Val) : List String → List Val → List String × List Val
   | a :: as, x :: xs =>
@@ -714,6 +888,11 @@ def Act.apply (a : Act) (k : Kind) (ks : List String) (xs : List Val) : Option (
   | .append v, .list => some (ks, xs ++ [v])
   | .add v, .set => some (ks, if xs.any (fun w => v.veq w) then xs else xs ++ [v])
   | .setkey k v, .dict => some (setKV k v ks xs)
+  | .clear, .list => some ([], [])
+  | .clear, .set => some ([], [])
+  | .clear, .dict => some ([], [])
+  | .popLast, .list => some (ks, xs.dropLast)
+  | .delkey k, .dict => some (delKV k ks xs)
   | _, _ => Option.none
 
 mutual
@@ -732,19 +911,24 @@ def writeL (i : Nat) (f : Kind → List String → List Val → Option (List Str
   | v :: vs => v.write i f :: writeL i f vs
 end
 
-/-- `Schema.copy()` — schema.py:463-469 after the fix: a new instance, `dict.update(obj, self)`, and a
-*new* attribute dict with the same entries. -/
+/-- `Schema.copy()` — schema.py `copy` after the fix: `obj = cls.__new__(cls)`; `dict.update(obj, self)` — an in-place
+write to `obj`; `obj.__dict__ = dict(self.__dict__)` — a *new* attribute dict with the same entries. -/
 def schemaCopy : Val → Comp
-  | .node _ (.inst k) ("__dict__" :: ks) (.node _ .dict aks avs :: xs), s =>
-      (.ok (.node s.next (.inst k) ("__dict__" :: ks) (.node (s.next + 1) .dict aks avs :: xs)),
-       { next := s.next + 2, writes := s.next :: (s.next + 1) :: s.writes })
+  | .node _ (.inst k b) ("__dict__" :: ks) (.node _ .dict aks avs :: xs), s =>
+      match mk (.inst k b) [] [] false s with                     -- obj = self.__class__.__new__(self.__class__)
+      | (.error e, s1) => (.error e, s1)
+      | (.ok obj, s1) =>
+        match mk .dict aks avs false s1 with                      -- dict(self.__dict__)
+        | (.error e, s2) => (.error e, s2)
+        | (.ok ad, s2) => fill obj ("__dict__" :: ks) (ad :: xs) s2      -- dict.update(obj, self); obj.__dict__ = …
   | _, s => (.error (.unmodelled "copy of a non-Schema"), s)
 
 /-- the behaviour before the fix: `obj.__dict__ = self.__dict__` -/
 def schemaCopyLegacy : Val → Comp
-  | .node _ (.inst k) ("__dict__" :: ks) (.node a .dict aks avs :: xs), s =>
-      (.ok (.node s.next (.inst k) ("__dict__" :: ks) (.node a .dict aks avs :: xs)),
-       { next := s.next + 1, writes := s.next :: s.writes })
+  | .node _ (.inst k b) ("__dict__" :: ks) (.node a .dict aks avs :: xs), s =>
+      match mk (.inst k b) [] [] false s with
+      | (.error e, s1) => (.error e, s1)
+      | (.ok obj, s1) => fill obj ("__dict__" :: ks) (.node a .dict aks avs :: xs) s1
   | _, s => (.error (.unmodelled "copy of a non-Schema"), s)
 
 /-- `d[fname] = v` on a plain dict (an instance's `__dict__`) -/
@@ -764,10 +948,10 @@ def instDelF (fname : String) : Kind → List String → List Val → Option (Li
     | _, _ => Option.none
 
 /-- `inst.field = atom` for a declared field whose type accepts the atom unchanged:
-Schema `__field_setter__` (schema.py:312-340): no_output → `self.__dict__[attname] = v`, drop the item;
-otherwise `dict.__setitem__(self, name, v)`.  DataClass setter (cls.py:259-273): `__dict__[attname] = v`. -/
+Schema `__field_setter__` (schema.py:327-369): no_output → `self.__dict__[attname] = v`, drop the item;
+otherwise `dict.__setitem__(self, name, v)`.  DataClass setter (cls.py:275-290): `__dict__[attname] = v`. -/
 def setattrWrites (d : Decl) (fname : String) (v : Val) : Val → List (Nat × (Kind → List String → List Val → Option (List String × List Val)))
-  | .node i (.inst _) _ (.node a .dict _ _ :: _) =>
+  | .node i (.inst _ _) _ (.node a .dict _ _ :: _) =>
       let noOut := d.fields.any (fun f => f.name == fname && f.noOutput)
       if d.kind == .schema then
         if noOut then [(a, setItemF fname v), (i, instDelF fname)]
@@ -781,6 +965,7 @@ structure World where
   env : Env
   next : Nat
   roots : List (Option Val) := []          -- inputs and results, in creation order
+  proc : Proc := {}                        -- registry cache, resolved forward references
   deriving Repr
 
 def Dflt.write (i : Nat) (f : Kind → List String → List Val → Option (List String × List Val)) : Dflt → Dflt
@@ -807,7 +992,7 @@ inductive Op where
   /-- a parse; the caller first builds `input` (a dict), allocating `bump` new objects for it -/
   | call (target wrapper : Nat) (bump : Nat) (input : Val) (ro : ROpts := {})
   /-- a further declaration (a new class, a subclass or variant of an earlier one with other Options, a function):
-  its default objects are new; the earlier declarations are what they were (`generate_from_bases`, cls.py:225-262,
+  its default objects are new; the earlier declarations are what they were (`generate_from_bases`, cls.py:223-257,
   takes the base parser's fields over without touching them) -/
   | declare (d : Decl) (bump : Nat)
   /-- the caller changes object `id` in place (reached through some result) -/
@@ -816,6 +1001,8 @@ inductive Op where
   | setattr (root : Nat) (field : String) (v : Val)
   /-- `roots[root].copy()` -/
   | copy (root : Nat)
+  /-- `roots[root].field` — attribute access; the value read becomes a root -/
+  | getattr (root : Nat) (field : String)
   deriving Repr
 
 inductive Outcome where
@@ -827,7 +1014,7 @@ def Outcome.ofErr : Err → Outcome
   | .unmodelled w => .unmodelled w
   | .fuel => .unmodelled "fuel"
 
-/-- `kwargs.update(_d)` (cls.py:489-490): the keyword arguments, overridden by the positional dict's entries -/
+/-- `kwargs.update(_d)` (cls.py:514-518): the keyword arguments, overridden by the positional dict's entries -/
 def mergeKV : List String → List Val → List String × List Val → List String × List Val
   | k :: ks, x :: xs, acc => mergeKV ks xs (setKV k x acc.1 acc.2)
   | _, _, acc => acc
@@ -848,24 +1035,72 @@ def clobber : Kind → List String → List Val → Option (List String × List 
 /-- apply the call's logged in-place writes to everything that existed before the call -/
 def World.applyWrites (w : World) (writes : List Nat) : World := writes.foldl (fun w i => w.writeAll i clobber) w
 
+/-- the parse as the world runs it: lookups through the registry cache as it is now, forward references resolved or not -/
+def World.callP (w : World) (optsOf : List (Option Opts) → Nat → Opts) (target wrapper bump : Nat) (input : Val)
+    (ro : ROpts) : Res × St :=
+  callWith optsOf w.proc.resolve (w.proc.resolved.contains target) ro w.env target wrapper
+    (entriesOf input).1 (entriesOf input).2 { next := w.next + bump }
+
+/-- what a parse of `target` leaves in the process state: the registry cache remembers what it answered for the field
+types it was asked about; the parser has resolved its forward references if they could all be resolved -/
+def World.procAfter (w : World) (target : Nat) : Proc :=
+  match w.env[target]? with
+  | Option.none => w.proc
+  | some d =>
+    { regCache := d.fields.map (fun f => (f.ty, w.proc.resolve f.ty)) ++ w.proc.regCache,
+      resolved := if d.scoped w.env.length then target :: w.proc.resolved else w.proc.resolved }
+
+/-- what an instance holds under an attribute name: a Schema's item of that name, else the entry of `__dict__` -/
+def readAttr (isDict : Bool) (fname : String) (ks : List String) (xs : List Val) : Option Val :=
+  match (if isDict then lookupKV fname (ks.drop 1) (xs.drop 1) else Option.none) with
+  | some v => some v
+  | Option.none =>
+    match xs with
+    | .node _ .dict aks avs :: _ => lookupKV fname aks avs
+    | _ => Option.none
+
+/-- Attribute access on an instance.  Schema `__field_getter__` (schema.py): the item of that name, else the entry of
+`__dict__` (a no_output field), else the *deferred* default — `get_default(options, defer=True)`, copied anew on every
+access and not stored —, else AttributeError.  DataClass getter (cls.py `make_getter`): the entry of `__dict__`, else
+AttributeError.  (For an instance built under the class's own options.) -/
+def World.getattr (w : World) (r : Nat) (fname : String) : World × Outcome :=
+  let fail : World × Outcome := ({ w with roots := w.roots ++ [Option.none] }, .skip)
+  match w.root r with
+  | some (.node _ (.inst k b) ks xs) =>
+      match w.env[k]? with
+      | Option.none => fail
+      | some d =>
+        match d.fields.find? (fun f => f.name == fname) with
+        | Option.none => fail
+        | some f =>
+          match readAttr b fname ks xs with
+          | some v => ({ w with roots := w.roots ++ [some v] }, .ok)
+          | Option.none =>
+            if b then
+              match getDefaultAt true f.defer {} f.dflt { next := w.next } with
+              | (some v, s1) => ({ w with next := s1.next, roots := w.roots ++ [some v] }, .ok)
+              | (Option.none, _) => fail
+            else fail
+  | _ => fail
+
 def World.stepWith (cp : Val → Comp) (optsOf : List (Option Opts) → Nat → Opts) (w : World) : Op → World × Outcome
   | .declare d bump => ({ w with env := w.env ++ [d], next := w.next + bump }, .ok)
   | .call target wrapper bump input ro =>
       let s : St := { next := w.next + bump }
-      match callWith optsOf ro w.env target wrapper (entriesOf input).1 (entriesOf input).2 s with
+      match w.callP optsOf target wrapper bump input ro with
       | (.ok r, s1) =>
           let w1 := { w with roots := w.roots ++ [some input] }.applyWrites s1.writes
-          ({ w1 with next := s1.next, roots := w1.roots ++ [some r] }, .ok)
+          ({ w1 with next := s1.next, roots := w1.roots ++ [some r], proc := w.procAfter target }, .ok)
       | (.error e, s1) =>
           let w1 := { w with roots := w.roots ++ [some input] }.applyWrites s1.writes
-          ({ w1 with next := s1.next, roots := w1.roots ++ [Option.none] }, .ofErr e)
+          ({ w1 with next := s1.next, roots := w1.roots ++ [Option.none], proc := w.procAfter target }, .ofErr e)
   | .mutate i act => (w.writeAll i act.apply, .ok)
   | .setattr r fname v =>
       match w.root r with
-      | some (.node i (.inst k) ks xs) =>
+      | some (.node i (.inst k b) ks xs) =>
           match w.env[k]? with
           | some d =>
-              ((setattrWrites d fname v (.node i (.inst k) ks xs)).foldl (fun w p => w.writeAll p.1 p.2) w, .ok)
+              ((setattrWrites d fname v (.node i (.inst k b) ks xs)).foldl (fun w p => w.writeAll p.1 p.2) w, .ok)
           | Option.none => (w, .skip)
       | _ => (w, .skip)
   | .copy r =>
@@ -875,6 +1110,7 @@ def World.stepWith (cp : Val → Comp) (optsOf : List (Option Opts) → Nat → 
           | (.ok c, s1) => ({ w with next := s1.next, roots := w.roots ++ [some c] }, .ok)
           | (.error _, _) => ({ w with roots := w.roots ++ [Option.none] }, .skip)
       | Option.none => ({ w with roots := w.roots ++ [Option.none] }, .skip)
+  | .getattr r fname => w.getattr r fname
 
 def World.step := World.stepWith schemaCopy effectiveOpts
 
